@@ -76,3 +76,18 @@ CHECKS["C16"] = dict(
     assumptions=["encoding/json is the reference for what a complete valid JSON object is",
                  "without number preservation, literals outside float64 are outside the round-trip contract"],
 )
+
+CHECKS["C17"] = dict(
+    test="TestC17", level="exploration",
+    quick=dict(shards=8, checks=25000, timeout=300),
+    thorough=dict(shards=16, checks=1000000, timeout=2400, shrinktime="120s"),
+    rule="rapid-generated operation sequences (Write, Writev with 0-4 segments, Flush, Read; payload sizes 0, 1, size-1, size, size+1, "
+         "3*size and random around the write-buffer size) on transport.NewTransport over an in-memory net.Conn for all four wrapper "
+         "variants (read/write buffer sizes from 0,1,2,7,16,17,64,4096), with the peer's bytes arriving in generated fragments and read "
+         "with generated buffer sizes. Oracle = one growing byte string: bytes seen by the peer are always a prefix of the bytes written, "
+         "equal after every Flush; Write/Writev report the full count and leave the caller's segment contents intact; all reads together "
+         "equal the peer's bytes. Non-trivial = a Writev issued while earlier bytes were still buffered, or a payload larger than the "
+         "write buffer. Distinct by case hash.",
+    required=["variant:raw", "variant:read", "variant:write", "variant:both", "writev-while-bytes-pending", "payload-larger-than-buffer", "flush", "peer-fragmented"],
+    assumptions=["the in-memory net.Conn accepts every write completely, like a healthy connection"],
+)
